@@ -45,7 +45,7 @@ def gen_plan(rng, tier):
     if mode == "live" or rng.random() < 0.7:
         for kk in ("r_start", "r_stop", "r_step", "files", "idl"):
             call.pop(kk, None)
-        if kind == "hadrons" and p.get("mode") == "irregular":
+        if kind in ("hadrons", "hadrons_npr") and p.get("mode") == "irregular":
             call["idl"] = list(p["cfgs"])
         call["sel"] = "none"
     nimg = k.nwriters(p) if hasattr(k, "nwriters") else len(k.images(p))
@@ -238,7 +238,7 @@ def execute(plan, ctx):
     d = ctx.fresh_dir("data")
     comp = kind.component(p, call)
     budget = 1200 if ctx.tier == "quick" else 5000
-    if plan["kind"] == "hadrons":
+    if plan["kind"] in ("hadrons", "hadrons_npr"):
         return execute_hadrons(plan, ctx, kind, p, call, d, comp, budget)
     trip = kind.images(p)
     images = [t[0] for t in trip]
@@ -471,7 +471,7 @@ def execute_hadrons(plan, ctx, kind, p, call, d, comp, budget):
     if out[0] == "raise" or full is None or _match(full, out[1]) is not None:
         ctx.probe("complete_set_not_readable_skipped")
         return
-    nvals = len(p["cfgs"]) * p["T"]
+    nvals = kind.nvals(p) if hasattr(kind, "nvals") else len(p["cfgs"]) * p["T"]
     ops = plan["ops"] if plan["mode"] == "cuts" else [{"file": 0, "sample_seed": 1, "nsample": 24, "which": "one", "enumerate": False}]
     calls = 0
     idl = kind._idl(call)
